@@ -30,7 +30,7 @@ func runC17(c *Ctx) {
 	c.Rule("R17f", "alterTable builders: the reverse statement is stored only under `if reversible`, after sqlx.ReverseChanges(reverse) reversed the recorded changes", 4)
 	c.Rule("R17i", ruleTextFreshScratch, 4)
 	checkFreshScratchState(c, "R17i", []string{pSqlite, pMysql, pPostgres})
-	c.Rule("R17k", ruleTextScratchStates, 3)
+	c.Rule("R17k", ruleTextScratchStates, 2)
 	checkScratchStates(c, "R17k")
 	c.Rule("R17l", ruleTextReverseRestoresGuarded, 2)
 	checkReverseRestoresGuarded(c, "R17l")
